@@ -6,7 +6,7 @@ correspondence implementation <-> Model through hook verif::build_huffman_tree (
 and of the model of std's unstable sort (`sortchk` lines); native exact decision of the property in the harness."""
 import json
 import vflib
-from checks.common import correspondence, sample_cases
+from checks.common import correspondence, sample_cases, run_components
 
 
 def check(run):
@@ -31,6 +31,13 @@ def check(run):
                 if not found and d[1].startswith('huff '):
                     run.violation('huffman_model_mismatch', {'what': 'implementation and Model disagree', 'case': d[1], 'impl': d[2][:2000], 'model': d[3][:2000]})
                     found = True
+        # the limits the encoder *uses* (15 / 7) are fixed at the call sites of write_huffman_tree, not in build_huffman_tree:
+        # whole-encode component (output bytes = Model bytes; both decoders return the input) on images whose histograms force both limits
+        agg, found2 = run_components(run, [{'name': 'c04', 'oracle': True, 'what': 'encoder call sites: encode output = Model and round-trips (limits 15 and 7 as used by write_huffman_tree)'}], proofs_ok=proofs_ok)
+        found = found or found2
+        enc_component = agg.get('components', {}).get('c04', {})
+    else:
+        enc_component = {}
     failed = [o for o in run.obligations if not o[1]]
     if failed and not found:
         run.violation('obligation', {'what': 'proof obligation or model/code tie no longer checks; search found no failing input',
@@ -44,7 +51,8 @@ def check(run):
         extra_cov={'correspondence_cases': n, 'correspondence_disagreements': len(diffs),
                    'input_distribution': {k: stats.get(k) for k in ('families', 'alphabet_sizes', 'limits', 'outcomes', 'max_length_histogram')},
                    'max_length_reaches_limit': stats.get('max_length_reaches_limit'),
-                   'std_sort_order_differs_from_stable': stats.get('std_sort_order_differs_from_stable')},
+                   'std_sort_order_differs_from_stable': stats.get('std_sort_order_differs_from_stable'),
+                   'encoder_call_site_component': {k: enc_component.get(k) for k in ('evaluations', 'outcomes') if k in enc_component}},
         assumptions=['hand model of build_huffman_tree and of std BinaryHeap / sort_unstable (Rust 1.95) tied by correspondence',
                      'theorem hypotheses: counts are non-negative and sum to less than 2^32 (u32 counters of at most 2*16384^2 pixels), '
                      'the alphabet fits the limit (n <= 2^L: 16 <= 2^7, 256/280 <= 2^15)'])
